@@ -55,7 +55,12 @@ def parseLog (s : String) : Option (List LogEntry) :=
 /-- implementation result: none = err -/
 def parseRes (s : String) : Option (Option Pin) :=
   if s == "err" || s == "panic" then some none
-  else if s.startsWith "ok:" then (parsePin (s.drop 3).toString).map some
+  else if s.startsWith "ok:" then
+    -- a success that hands back a pin without a cid (the zero `api.Pin`: cid.Undef prints as "-") is still a
+    -- success the clauses must judge, not an unreadable case: give it a cid outside every universe
+    let t := (s.drop 3).toString
+    let t := if t.startsWith "-/" then "4294967295" ++ (t.drop 1).toString else t
+    (parsePin t).map some
   else none
 
 /-- a trailing `!k`: the k-th consensus call of the API call fails -/
